@@ -56,8 +56,20 @@ func btoi(b bool) int {
 func c04Graph(c *c04Case) (*gen.Graph, []string) {
 	g := gen.NewGraph("c04")
 	g.FlowsReversed = c.DocRev
-	if c.Lang == "xpath" {
+	if c.Lang == "xpath" || c.Lang == "mixedx" {
 		g.Lang = "xpath"
+	}
+	// mixed: every second condition names its own language (the other one than the definitions' default)
+	own := func(ci int) string {
+		if ci%2 == 1 {
+			switch c.Lang {
+			case "mixed":
+				return "xpath"
+			case "mixedx":
+				return "expr"
+			}
+		}
+		return ""
 	}
 	s := g.Add(gen.Start, "start", "")
 	x := g.Add(gen.Xor, "X", "")
@@ -96,7 +108,7 @@ func c04Graph(c *c04Case) (*gen.Graph, []string) {
 			if c.Errs>>ci&1 == 1 {
 				g.Connect(x, b, &gen.Cond{Kind: "fail"})
 			} else {
-				g.Connect(x, b, &gen.Cond{Kind: kind, Var: fmt.Sprintf("c%d", ci), Op: ">", Val: 0})
+				g.Connect(x, b, &gen.Cond{Kind: kind, Var: fmt.Sprintf("c%d", ci), Op: ">", Val: 0, Lang: own(ci)})
 			}
 			if c.Source == "obj" {
 				g.Objects = append(g.Objects, gen.DataObject{ID: fmt.Sprintf("c%d", ci), Name: fmt.Sprintf("c%d", ci)})
@@ -114,7 +126,10 @@ func c04Cases(tier string, seed uint64) []fw.Case {
 		for def := -1; def <= k; def++ {
 			for truth := 0; truth < 1<<k; truth++ {
 				for tokens := 1; tokens <= 3; tokens++ {
-					for _, v := range [][2]string{{"expr", "var"}, {"expr", "obj"}, {"xpath", "var"}} {
+					for _, v := range [][2]string{{"expr", "var"}, {"expr", "obj"}, {"xpath", "var"}, {"mixed", "var"}, {"mixedx", "var"}} {
+						if k < 2 && (v[0] == "mixed" || v[0] == "mixedx") {
+							continue
+						}
 						c := c04Case{K: k, DefPos: def, Truth: truth, Tokens: tokens, Lang: v[0], Source: v[1]}
 						c.Name = fmt.Sprintf("k%d-def%d-t%d-tok%d-%s-%s", k, def, truth, tokens, v[0], v[1])
 						cs = append(cs, fw.MkCase("stepwise", &c))
